@@ -121,7 +121,7 @@ Proof. exact (clvals_hset_plain_other n v h). Qed.
 Lemma clvals_hset_other n v h : lower n <> K_CL -> clvals (fst (hset n v h)) = clvals h.
 Proof.
   intros H. unfold hset. destruct (has_crlf v); cbn [fst].
-  - apply clvals_hdel_other. exact H.
+  - reflexivity.
   - rewrite clvals_app, (clvals_hdel_other _ _ H), (clvals_single_other _ _ H). apply app_nil_r.
 Qed.
 
@@ -232,7 +232,7 @@ Qed.
 Lemma hlast_hset_other k n v h : lower n <> k -> hlast k (fst (hset n v h)) = hlast k h.
 Proof.
   intros H. unfold hset. destruct (has_crlf v); cbn [fst].
-  - apply hlast_hdel_other. congruence.
+  - reflexivity.
   - rewrite (hlast_app_other _ _ _ _ H). apply hlast_hdel_other. congruence.
 Qed.
 
